@@ -130,6 +130,9 @@ impl PartialOrd for Constants {
                                 } else {
                                     return None;
                                 }
+                            } else if lc != rc {
+                                // two different constants are not comparable
+                                return None;
                             }
                         }
                         None => {
